@@ -53,6 +53,7 @@ func (r *Reader) VerifElements() []VerifElem {
 		}
 	}
 	return out
+}
 
 // VerifShouldExcludeParagraph exposes (*Reader).shouldExcludeParagraph for a
 // reader holding the given header/footer part texts (verification harness only).
